@@ -28,6 +28,9 @@ func ConfigByName(name string) Config {
 			c.OddServiceNames = true
 		case "negative_enum_values":
 			c.NegativeEnumValues = true
+		case "shadow":
+			c.ShadowNames = true
+			c.MinFiles, c.MaxFiles = 2, 3
 		case "big":
 			c.MaxFiles, c.MinFiles, c.MaxTypes, c.MaxServices, c.MaxScopes = 6, 3, 14, 3, 3
 		}
